@@ -371,7 +371,6 @@ func c02next(c *an.Ctx) {
 					}
 				}
 				st.Set("w", w)
-				st.Set("adv", "")
 			case "lexer.pos":
 				adv := "?"
 				switch s := stmt.(type) {
@@ -406,7 +405,7 @@ func c02next(c *an.Ctx) {
 				bad = "returns without having set width: backup() would step back by the width of an earlier rune"
 			case adv == "" && w == "0":
 			case adv == "width":
-			case adv != "" && adv != "?" && (adv == w || "=Pos("+adv[1:]+")" == w || adv == "=Pos("+w[1:]+")"):
+			case adv != "" && adv != "?" && w != "?" && (adv == w || "=Pos("+strings.TrimPrefix(adv, "=")+")" == w || adv == "=Pos("+strings.TrimPrefix(w, "=")+")"):
 			default:
 				bad = "advances the position by " + adv + " but records width " + w
 			}
